@@ -158,7 +158,7 @@ theorem service_exit (w : World) (p : SPt) (hw : After w) : serviceRun w 3 p = .
   rcases hst with ⟨h2, h3⟩ | ⟨h2, h3⟩ <;> (try simp [hkind, hb] at h2 h3) <;>
   simp_all (config := { failIfUnchanged := false })
     [serviceRun, resultAfter, SPt.call, serviceStep, classify, run, exec, start, body, bodyRecv, bodySend, bodyAccept,
-     bodyConnect, bodyListen, bodyClose, bodyPoll, takeRecv, closeGot, pollRecvNow, applyAct, Pt.isWait, ret, raise,
+     bodyConnect, bodyListen, bodyClose, bodyPoll, takeRecv, closeGot, pollRecvNow, applyAct, Pt.isWait, ret, raise, doBind,
      closeFinish, dlcSendLoop, dlcSendTail, Sock.isEst, Sock.estOrCw, withS, tcoClose, callTimeout, List.headD,
      EBADF, EINVAL, EPIPE, EMSGSIZE, EOPNOTSUPP, ENOTCONN, ESHUTDOWN]
 
